@@ -192,21 +192,30 @@ func (lit *levelIterator) Seek(id []byte) error {
 		lit.value = copyBytes(lit.it.Value())
 		return nil
 	}
+	// nothing at or after id: drop the key of the previous position
+	lit.key = nil
+	lit.value = nil
 	return fmt.Errorf("Invalid")
 }
 
 func (lit *levelIterator) SeekReverse(id []byte) error {
 	lit.forward = false
-	if lit.it.Seek(id) {
+	ok := lit.it.Seek(id)
+	if !ok {
+		//every key is below id: the last key is the largest one at or below id
+		ok = lit.it.Last()
+	} else if bytes.Compare(id, lit.it.Key()) < 0 {
 		//Level iterator will land on the first value above the request
 		//if we're there, move once to get below start request
-		if bytes.Compare(id, lit.it.Key()) < 0 {
-			lit.it.Prev()
-		}
+		ok = lit.it.Prev()
+	}
+	if ok {
 		lit.key = copyBytes(lit.it.Key())
 		lit.value = copyBytes(lit.it.Value())
 		return nil
 	}
+	lit.key = nil
+	lit.value = nil
 	return fmt.Errorf("Invalid")
 }
 
